@@ -132,6 +132,71 @@ int main(int argc, char** argv) {
     if (!good) printf("VIOLATION: %s\n", why.c_str());
     return good ? 0 : 1;
   }
+  if (a.Has("structures")) {
+    // Rule structures: every depfile of 1..R rules over the names a b c d, one target and 0..2 dependencies per rule
+    // (sharded).  Reference: a rule whose target was named as a dependency earlier and that has dependencies of its own
+    // makes the file invalid; otherwise outs = the targets that were not dependencies before, ins = the dependencies in
+    // order of first appearance, each once.
+    int maxrules = (int)a.GetInt("structures", 3);
+    long shard = a.GetInt("shard", 0), nshards = a.GetInt("nshards", 1);
+    const vector<string> N = {"a", "b", "c", "d"};
+    struct Rule { int t; vector<int> d; };
+    vector<Rule> rules;
+    for (int t = 0; t < 4; ++t) {
+      rules.push_back({t, {}});
+      for (int x = 0; x < 4; ++x) {
+        rules.push_back({t, {x}});
+        for (int y = 0; y < 4; ++y) if (y != x) rules.push_back({t, {x, y}});
+      }
+    }
+    Res r;
+    uint64_t idx = 0, accepted = 0, rejected = 0;
+    string first_bad, first_why;
+    for (int nr = 1; nr <= maxrules; ++nr) {
+      vx::Odometer od(nr, (int)rules.size());
+      do {
+        if ((long)(idx++ % nshards) != shard) continue;
+        string text;
+        vector<string> outs, ins;
+        bool invalid = false;
+        for (int k = 0; k < nr; ++k) {
+          const Rule& ru = rules[od.d[k]];
+          text += N[ru.t] + ":";
+          for (int d : ru.d) text += " " + N[d];
+          text += "\n";
+          bool t_is_dep = find(ins.begin(), ins.end(), N[ru.t]) != ins.end();
+          if (t_is_dep && !ru.d.empty()) invalid = true;
+          if (invalid) continue;
+          if (!t_is_dep && find(outs.begin(), outs.end(), N[ru.t]) == outs.end()) outs.push_back(N[ru.t]);
+          for (int d : ru.d) if (find(ins.begin(), ins.end(), N[d]) == ins.end()) ins.push_back(N[d]);
+        }
+        r.names++;
+        string why;
+        if (invalid) {
+          string content = text, err;
+          DepfileParser p;
+          r.files++;
+          if (p.Parse(&content, &err) || err.empty()) {
+            if (!r.violations++) { first_bad = text; first_why = "a dependency reappears as a target that has dependencies of its own, and the depfile was accepted"; }
+          } else rejected++;
+        } else {
+          if (!CheckFile(text, outs, ins, &r, &why)) {
+            if (!r.violations++) {
+              first_bad = text;
+              string o, i;
+              for (auto& x : outs) o += x + string(1, '\0');
+              for (auto& x : ins) i += x + string(1, '\0');
+              first_why = why + " |outs=" + vx::Hex(o) + " |ins=" + vx::Hex(i);
+            }
+          } else accepted++;
+        }
+      } while (od.Next());
+    }
+    printf("{\"cases\":%llu,\"files\":%llu,\"accepted_ok\":%llu,\"rejected_ok\":%llu,\"violations\":%llu,\"first_bad\":\"%s\",\"first_why\":\"%s\"}\n",
+           (unsigned long long)r.names, (unsigned long long)r.files, (unsigned long long)accepted, (unsigned long long)rejected,
+           (unsigned long long)r.violations, vx::Hex(first_bad).c_str(), vx::JsonEscape(first_why).c_str());
+    return 0;
+  }
   if (a.Has("alpha")) kAlpha = vx::Unhex(a.Get("alpha"));
   int maxlen = (int)a.GetInt("maxlen", 3), pairlen = (int)a.GetInt("pairlen", 2);
   long shard = a.GetInt("shard", 0), nshards = a.GetInt("nshards", 1);
